@@ -103,8 +103,18 @@ class BaseModbusClient(ModbusClientMixin):
         :param request: The request to process
         :returns: The result of the request execution
         """
-        if not self.connect():
-            raise ConnectionException("Failed to connect[%s]" % (self.__str__()))
+        # connect under the transaction lock: two threads racing through
+        # connect() would otherwise open two connections, and the one that
+        # sent its request first would wait for the reply on the other
+        lock = getattr(self.transaction, '_transaction_lock', None)
+        if lock is not None:
+            lock.acquire()
+        try:
+            if not self.connect():
+                raise ConnectionException("Failed to connect[%s]" % (self.__str__()))
+        finally:
+            if lock is not None:
+                lock.release()
         return self.transaction.execute(request)
 
     # ----------------------------------------------------------------------- #
